@@ -20,7 +20,9 @@ import (
 	"fmt"
 	"os"
 	"reflect"
+	"runtime"
 	"runtime/debug"
+	"runtime/pprof"
 	"sort"
 	"strings"
 	"sync"
@@ -52,8 +54,66 @@ type constructs struct {
 	strNeedsEscape bool // a string literal containing a byte the printer escapes but the tokenizer does not decode
 	orderNullRand  bool // ORDER BY NULL / rand() with an explicit direction
 	otherStmt      bool // the statement is one of vitess' placeholder nodes OtherRead / OtherAdmin
-	funcNameQuoted bool // a function whose name is not a plain identifier (was written in backticks)
-	emptyIdent     bool // a qualified column whose own name is empty (`t.&&`: the tokenizer returns no text for && and ||)
+	funcNameQuoted bool // a function whose name cannot be printed bare (was written in backticks)
+	unitQuoted     bool // an INTERVAL unit that cannot be printed bare
+	typeQuoted     bool // a cast type name that cannot be printed bare
+	setNameQuoted  bool // a SET variable name that cannot be printed bare
+	emptyIdent     bool // a dotted name with an empty part (`t.&&`: the tokenizer returns no text for && and ||)
+	oddDottedPart  bool // a dotted name whose later part starts with '/', '.' or '@' (re-tokenized as a path / variable when printed)
+}
+
+// bareOK reports, by asking the parser itself, whether `name` written bare at the hole of the
+// template is read back as exactly that name; extract pulls the name out of the parsed probe.
+// This makes "the name needs quoting" an input predicate that does not depend on the printer.
+var bareCache sync.Map
+
+func bareOK(kind, name string) bool {
+	if name == "" {
+		return true
+	}
+	ck := kind + "\x00" + name
+	if v, ok := bareCache.Load(ck); ok {
+		return v.(bool)
+	}
+	ok := false
+	var probe string
+	switch kind {
+	case "func":
+		probe = "select " + name + "(1) from t"
+	case "unit":
+		probe = "select interval 1 " + name + " from t"
+	case "type":
+		probe = "select convert(a, " + name + ") from t"
+	case "set":
+		probe = "set " + name + " = 1"
+	}
+	if t, err, _, _ := safeParse(probe); err == nil && t != nil {
+		got := ""
+		n := 0
+		visitNodes(t, func(tn string, v reflect.Value) {
+			switch {
+			case kind == "func" && tn == "FuncExpr":
+				got = v.FieldByName("Name").FieldByName("val").String()
+				n++
+			case kind == "unit" && tn == "IntervalExpr":
+				got = v.FieldByName("Unit").String()
+				n++
+			case kind == "type" && tn == "ConvertTypeSimple":
+				got = v.FieldByName("Name").String()
+				n++
+			case kind == "set" && tn == "SetExpr":
+				got = v.FieldByName("Name").FieldByName("val").String()
+				n++
+			}
+		})
+		ok = n == 1 && got == name
+	}
+	bareCache.Store(ck, ok)
+	return ok
+}
+
+func oddStart(s string) bool {
+	return s != "" && (s[0] == '/' || s[0] == '.' || s[0] == '@')
 }
 
 func plainIdent(s string) bool {
@@ -113,12 +173,39 @@ func analyse(t sqlparser.Statement) *constructs {
 		case "OtherRead", "OtherAdmin":
 			cs.otherStmt = true
 		case "FuncExpr":
-			if name := v.FieldByName("Name").FieldByName("val").String(); name != "" && !plainIdent(name) {
+			if name := v.FieldByName("Name").FieldByName("val").String(); !bareOK("func", name) {
 				cs.funcNameQuoted = true
 			}
+		case "IntervalExpr":
+			if !bareOK("unit", v.FieldByName("Unit").String()) {
+				cs.unitQuoted = true
+			}
+		case "ConvertTypeSimple":
+			if !bareOK("type", v.FieldByName("Name").String()) {
+				cs.typeQuoted = true
+			}
+		case "SetExpr":
+			if !bareOK("set", v.FieldByName("Name").FieldByName("val").String()) {
+				cs.setNameQuoted = true
+			}
 		case "ColName":
-			if v.FieldByName("Name").FieldByName("val").String() == "" && v.FieldByName("Qualifier").FieldByName("Name").FieldByName("v").String() != "" {
+			name := v.FieldByName("Name").FieldByName("val").String()
+			q := v.FieldByName("Qualifier").FieldByName("Name").FieldByName("v").String()
+			if name == "" && q != "" {
 				cs.emptyIdent = true
+			}
+			if q != "" && (oddStart(name) || strings.HasPrefix(q, "@@")) {
+				// a system variable name (@@x) absorbs following dots when re-tokenized
+				cs.oddDottedPart = true
+			}
+		case "TableName":
+			name := v.FieldByName("Name").FieldByName("v").String()
+			q := v.FieldByName("Qualifier").FieldByName("v").String()
+			if name == "" && q != "" {
+				cs.emptyIdent = true
+			}
+			if q != "" && oddStart(name) {
+				cs.oddDottedPart = true
 			}
 		}
 	})
@@ -138,6 +225,8 @@ var repairs = []repairDef{
 	{"substr-from-for-printed-as-plain-call", func(cs *constructs) bool { return cs.types["SubstrExpr"] > 0 }},
 	{"order-by-null-or-rand-direction-dropped", func(cs *constructs) bool { return cs.orderNullRand }},
 	{"function-name-needing-quotes-printed-bare", func(cs *constructs) bool { return cs.funcNameQuoted }},
+	{"interval-unit-needing-quotes-printed-bare", func(cs *constructs) bool { return cs.unitQuoted }},
+	{"cast-type-needing-quotes-printed-bare", func(cs *constructs) bool { return cs.typeQuoted }},
 }
 
 // formatter returns a NodeFormatter that prints the constructs named in active the way the
@@ -215,7 +304,7 @@ func formatter(active map[string]bool) sqlparser.NodeFormatter {
 				return
 			}
 		case *sqlparser.FuncExpr:
-			if n != nil && active["function-name-needing-quotes-printed-bare"] && !plainIdent(n.Name.String()) {
+			if n != nil && active["function-name-needing-quotes-printed-bare"] && !bareOK("func", n.Name.String()) {
 				distinct := ""
 				if n.Distinct {
 					distinct = "distinct "
@@ -224,6 +313,16 @@ func formatter(active map[string]bool) sqlparser.NodeFormatter {
 					buf.Myprintf("%v.", n.Qualifier)
 				}
 				buf.Myprintf("%v(%s%v)", n.Name, distinct, n.Exprs)
+				return
+			}
+		case *sqlparser.IntervalExpr:
+			if n != nil && active["interval-unit-needing-quotes-printed-bare"] && !bareOK("unit", n.Unit) {
+				buf.Myprintf("interval %v %v", n.Expr, sqlparser.NewColIdent(n.Unit))
+				return
+			}
+		case *sqlparser.ConvertTypeSimple:
+			if n != nil && active["cast-type-needing-quotes-printed-bare"] && !bareOK("type", n.Name) {
+				buf.Myprintf("%v", sqlparser.NewColIdent(n.Name))
 				return
 			}
 		case *sqlparser.Order:
@@ -348,16 +447,23 @@ func check(c *core.Ctx, sc stmtCase, t1 sqlparser.Statement, idx int) *construct
 	}
 	// defects no formatter can repair (the information is already lost in the tree)
 	unrepairable := func(f *failure) string {
-		if f.kind != "reparse" || corrupt {
+		if corrupt {
 			return ""
 		}
-		if cs.otherStmt {
+		identSite := f.kind == "reparse" || (f.kind == "tree" && (f.where == "ColIdent.val" || f.where == "TableIdent.v"))
+		switch {
+		case cs.otherStmt && f.kind == "reparse":
 			// vitess keeps nothing of EXPLAIN/DESCRIBE/REPAIR/OPTIMIZE ...: the node prints a placeholder word
 			return "other-read-admin-placeholder"
-		}
-		if cs.emptyIdent {
-			// `t.&&` / `t.||` are accepted as a column whose name is the (empty) text of the token
-			return "empty-column-name-from-symbolic-keyword"
+		case cs.emptyIdent && identSite:
+			// `t.&&` / `t.||` are accepted as a name whose part is the (empty) text of the token
+			return "empty-name-part-from-symbolic-keyword"
+		case cs.oddDottedPart && identSite:
+			return "dotted-name-part-retokenized"
+		case cs.setNameQuoted && f.kind == "reparse":
+			return "set-variable-name-needing-quotes-printed-bare"
+		case cs.types["DDL"] > 0 && partialDDL(sc.sql):
+			return "partially-parsed-ddl"
 		}
 		return ""
 	}
@@ -396,6 +502,18 @@ func check(c *core.Ctx, sc stmtCase, t1 sqlparser.Statement, idx int) *construct
 	}
 	c.Count("outcome/only_known_defects", 1)
 	return cs
+}
+
+// partialDDL: Parse accepted the statement only through vitess' "partially parsed DDL" escape
+// hatch (the rest of the text was skipped), which ParseStrictDDL refuses.
+func partialDDL(sql string) (partial bool) {
+	defer func() {
+		if r := recover(); r != nil {
+			partial = false
+		}
+	}()
+	_, err := sqlparser.ParseStrictDDL(sql)
+	return err != nil
 }
 
 // dump is a development aid: VERIF_C30_DUMP=<file> appends every unattributed failure as a JSON line.
@@ -464,6 +582,27 @@ func account(c *core.Ctx, sc stmtCase, cs *constructs) {
 // ---------------------------------------------------------------------------------------------
 
 func Run(c *core.Ctx) core.FinishOpts {
+	if pf := os.Getenv("VERIF_C30_PROF"); pf != "" { // development aid
+		if f, err := os.Create(pf); err == nil {
+			_ = pprof.StartCPUProfile(f)
+			defer pprof.StopCPUProfile()
+		}
+		runtime.SetMutexProfileFraction(1)
+		runtime.SetBlockProfileRate(1000)
+		defer func() {
+			if f, err := os.Create(pf + ".mutex"); err == nil {
+				_ = pprof.Lookup("mutex").WriteTo(f, 0)
+				f.Close()
+			}
+			if f, err := os.Create(pf + ".block"); err == nil {
+				_ = pprof.Lookup("block").WriteTo(f, 0)
+				f.Close()
+			}
+		}()
+	}
+	// the yacc parser under test allocates a large value stack per parse; with the default GC
+	// target the 16 workers mostly wait for the heap lock
+	defer debug.SetGCPercent(debug.SetGCPercent(1000))
 	// fixed corpora
 	type seedStmt struct {
 		source, sql string
@@ -529,7 +668,7 @@ func Run(c *core.Ctx) core.FinishOpts {
 	}
 
 	// generated + mutated statements, in deterministic chunks
-	attempts := c.Pick(8000, 800000)
+	attempts := c.Pick(24000, 800000)
 	const chunk = 1000
 	nChunks := (attempts + chunk - 1) / chunk
 	core.Parallel(nChunks, 16, func(j int) {
@@ -573,7 +712,7 @@ func Run(c *core.Ctx) core.FinishOpts {
 		Rule: "statements = scenario queries + README examples + dialect examples + every string literal of parser/sqlparser/*_test.go that parses + grammar-generated OctoSQL statements " +
 			"(WITH, TVF calls with =>, TABLE(), DESCRIPTOR(), LOOKUP/STREAM/outer/natural joins, ->, ->*, ::type, [i], INTERVAL, TRIGGER lists, subqueries, file paths with options, unions) + token mutants of all of these that still parse; " +
 			"non-trivial = accepted statement whose tree has at least 8 nodes; distinct by statement text",
-		Floor: c.Pick(2500, 200000),
+		Floor: c.Pick(6000, 200000),
 		Assumptions: []string{
 			"oracle: own reflect-based tree comparison (nil slice == empty slice, Comments/Metadata/cached lowered name ignored) and print fix-point",
 			"statements whose plain round trip fails are re-run with a corrected formatter for the known defective constructs they contain (sqlparser.NodeFormatter), so other differences are still reported",
